@@ -22,14 +22,14 @@ Proof. pose proof (lvl_align_ge4 st). lia. Qed.
 (* ------------------------------------------------------------------ create_string *)
 Lemma create_string_valid n Sc st s ref e st' :
   st_ok st -> ma_ok st -> create_string st s = Some (ref, e, st') -> small st' ->
-  step st st' /\ e_start st' = ref /\ e_end st' = e_end st /\ min_align st' = min_align st /\ vcache st' = vcache st /\
+  step st st' /\ e_start st' = ref /\ ref < e_start st /\ e_end st' = e_end st /\ min_align st' = min_align st /\ vcache st' = vcache st /\
   ref mod 4 = 0 /\
   valid n Sc st' (lvl_align st') OString ref (VString s).
 Proof.
   intros Hok Hma E Hsm. unfold create_string in E.
   destruct (MAX_STRING_LEN <? lenZ s) eqn:El; [discriminate|].
   set (pad := front_pad st (u32 (lenZ s + 1)) 4 + 1) in E.
-  destruct (step_emit_front _ _ _ _ _ Hok Hma E Hsm) as (Hst & Hr & Hs & He & Hm & Hc & Hmem & _).
+  destruct (step_emit_front _ _ _ _ _ Hok Hma E Hsm) as (Hst & Hr & Hs & He & Hm & Hc & Hmem & Hlt).
   pose proof (lenZ_nonneg s) as Hls.
   pose proof (front_pad_range st (u32 (lenZ s + 1)) 4 pow2_4) as Hfr.
   assert (Hpe : pad = front_pad st (u32 (lenZ s + 1)) 4 + 1) by reflexivity. clearbody pad.
@@ -43,7 +43,7 @@ Proof.
     replace (e_start st - (4 + (lenZ s + pad))) with
             (e_start st - (lenZ s + 1) - front_pad st (lenZ s + 1) 4 + (-1) * 4) by (rewrite Hpe; ring).
     rewrite Z.mod_add by lia. exact Ha. }
-  split; [exact Hst|]. split; [exact Hs|]. split; [exact He|]. split; [exact Hm|]. split; [exact Hc|].
+  split; [exact Hst|]. split; [exact Hs|]. split; [exact Hlt|]. split; [exact He|]. split; [exact Hm|]. split; [exact Hc|].
   split; [exact Href4|].
   intros o ds Ho. cbn [obj_holds]. unfold dec_string.
   apply mem_has_app in Hmem. destruct Hmem as [Hm1 Hm2]. apply mem_has_app in Hm2. destruct Hm2 as [Hm2 Hm3].
@@ -59,7 +59,7 @@ Qed.
 (* ------------------------------------------------------------------ create_struct *)
 Lemma create_struct_valid n Sc st data al ref e st' :
   st_ok st -> ma_ok st -> pow2 al -> create_struct st data al = Some (ref, e, st') -> small st' ->
-  step st st' /\ e_start st' = ref /\ e_end st' = e_end st /\ vcache st' = vcache st /\
+  step st st' /\ e_start st' = ref /\ ref < e_start st /\ e_end st' = e_end st /\ vcache st' = vcache st /\
   ref mod al = 0 /\
   valid n Sc st' (lvl_align st') (OStruct (lenZ data) al) ref (VBytes data).
 Proof.
@@ -68,7 +68,7 @@ Proof.
   destruct (set_min_align_fields st al) as (Hs1 & He1 & _ & _ & Hc1 & _ & Hm1).
   destruct (lvl_align_set st al Hma Hal) as [Hd1 _].
   remember (set_min_align st al) as st1 eqn:Hst1e. clear Hst1e.
-  destruct (step_emit_front _ _ _ _ _ (s_ok _ _ Hst1) (s_ma _ _ Hst1) E Hsm) as (Hst & Hr & Hs & He & Hm & Hc & Hmem & _).
+  destruct (step_emit_front _ _ _ _ _ (s_ok _ _ Hst1) (s_ma _ _ Hst1) E Hsm) as (Hst & Hr & Hs & He & Hm & Hc & Hmem & Hlt).
   pose proof (lenZ_nonneg data) as Hld.
   pose proof (emitted_small st1 st' ref _ (s_ok _ _ Hst) Hsm Hs (s_ok _ _ Hst1) Hr) as Hsmall.
   rewrite lenZ_app in Hsmall. pose proof (lenZ_nonneg (zeros (front_pad st1 (u32 (lenZ data)) al))) as Hz.
@@ -80,7 +80,7 @@ Proof.
     pose proof (front_pad_aligned st1 (lenZ data) al Hal) as Ha.
     replace (e_start st1 - (lenZ data + front_pad st1 (lenZ data) al)) with
             (e_start st1 - lenZ data - front_pad st1 (lenZ data) al) by ring. exact Ha. }
-  split; [exact (step_trans _ _ _ Hst1 Hst)|]. split; [exact Hs|]. split; [lia|]. split; [congruence|].
+  split; [exact (step_trans _ _ _ Hst1 Hst)|]. split; [exact Hs|]. split; [lia|]. split; [lia|]. split; [congruence|].
   split; [exact Hrefa|].
   intros o ds Ho. cbn [obj_holds]. unfold dec_struct.
   apply mem_has_app in Hmem. destruct Hmem as [Hm2 _].
@@ -114,7 +114,7 @@ Lemma create_vector_valid n Sc st elems count esize align maxcount ref e st' :
   Forall (fun e => lenZ e = esize) elems -> count = Z.of_nat (length elems) ->
   maxcount * esize <= U32_MAX ->
   create_vector st (concat elems) count esize align maxcount = Some (ref, e, st') -> small st' ->
-  step st st' /\ e_start st' = ref /\ e_end st' = e_end st /\ vcache st' = vcache st /\
+  step st st' /\ e_start st' = ref /\ ref < e_start st /\ e_end st' = e_end st /\ vcache st' = vcache st /\
   ref mod 4 = 0 /\ count <= maxcount /\
   valid n Sc st' (lvl_align st') (OVec esize align) ref (VVec elems).
 Proof.
@@ -139,7 +139,7 @@ Proof.
   rewrite Hvu in E. rewrite <- Hlen in E.
   replace (Z.to_nat (lenZ (concat elems))) with (length (concat elems)) in E by (unfold lenZ; lia).
   rewrite firstn_all in E.
-  destruct (step_emit_front _ _ _ _ _ (s_ok _ _ Hst1) (s_ma _ _ Hst1) E Hsm) as (Hst & Hr & Hs & He & Hm & Hc & Hmem & _).
+  destruct (step_emit_front _ _ _ _ _ (s_ok _ _ Hst1) (s_ma _ _ Hst1) E Hsm) as (Hst & Hr & Hs & He & Hm & Hc & Hmem & Hlt).
   pose proof (front_pad_range st1 (lenZ (concat elems)) _ Hal4) as Hfr.
   rewrite !lenZ_app, lenZ_le32, lenZ_zeros in Hr by lia.
   assert (Hdata : (ref + 4) mod (align4 align) = 0).
@@ -155,7 +155,7 @@ Proof.
   assert (Hdataa : (ref + 4) mod align = 0).
   { eapply mod_divide_trans; [apply pow2_pos, Hal | | apply pow2_pos, Hal4 | exact Hdata].
     apply pow2_le_divide; [exact Hal | exact Hal4 | lia]. }
-  split; [exact (step_trans _ _ _ Hst1 Hst)|]. split; [exact Hs|]. split; [lia|]. split; [congruence|].
+  split; [exact (step_trans _ _ _ Hst1 Hst)|]. split; [exact Hs|]. split; [lia|]. split; [lia|]. split; [congruence|].
   split; [exact Href4|]. split; [lia|].
   intros o ds Ho. cbn [obj_holds]. exists elems. split; [reflexivity|]. intros mc Hmc.
   unfold dec_vector.
